@@ -21,6 +21,19 @@ def menu(tier):
                 scn.append(S.mk(f'{inp}/{mname}/{strat}/j{j}/{ms}', inp,
                                 model, strat, j, S.MUTATOR_SETS[ms],
                                 budget=b if j > 1 else 0))
+    # a simplification that puts one object at two positions: only a run
+    # that re-establishes distinct identities can still reduce the second
+    shared = '''(declare-fun f (Int) Int)
+(declare-fun g (Int Int Int) Bool)
+(declare-const a Int)
+(declare-const b Int)
+(assert (let ((v (f a)) (w (f b))) (g v b v)))
+'''
+    for strat in ('hierarchical', 'hybrid'):
+        for j in (1, 2):
+            scn.append(S.mk(f'shared-copy/{strat}/j{j}', shared,
+                            ('anyof', ['( g ( f a ) b', '( g v b']), strat,
+                            j, [], budget=b if j > 1 else 0))
     for inp, ms in (('micro', 'core'), ('micro2', 'core'),
                     ('micro2', 'erase'), ('micro', 'boolean')):
         for strat in ('hierarchical', 'hybrid'):
